@@ -62,8 +62,8 @@ func ResetSerials() {
 	mu.Unlock()
 }
 
-func Zero1[K comparable, V any](m map[K]V) (k K)       { return }
-func ZeroV[K comparable, V any](m map[K]V) (v V)       { return }
+func Zero1[K comparable, V any](m map[K]V) (k K)      { return }
+func ZeroV[K comparable, V any](m map[K]V) (v V)      { return }
 func Zero2[K comparable, V any](m map[K]V) (k K, v V) { return }
 
 type sortKey struct {
